@@ -254,7 +254,7 @@ def blackbox_part(ck, quick):
 
 
 def main():
-    ck = yv.Check("C18", "model_checking")
+    ck = yv.Check("C18", "model_checking", deadlines=(300, 3300))
     quick = ck.tier == "quick"
     stats = dict(states=0, transitions=0, executions=0)
     table = schedule_part(ck, quick, stats)
